@@ -114,12 +114,13 @@ def nextValue (m : XmlMeta) (fields : List (Str × Val)) : Except Err (List (Xml
     | 0 => acc
     | fuel + 1 =>
       let (rolling, out) := sequence.foldl (fun (st : Bool × List (XmlVar × Val)) (vv : XmlVar × Val) =>
-        match vv.2 with
-        | .list xs =>
+        -- a token list is one element, not one element per token
+        match (if vv.1.listElement || !vv.1.tokens then vv.2 else Val.none), vv.2 with
+        | .list xs, _ =>
           match xs[j]? with
           | some x => (true, st.2 ++ emit vv.1 x)
           | none => st
-        | v => if j = 0 then (true, st.2 ++ emit vv.1 v) else st) (false, [])
+        | _, v => if j = 0 then (true, st.2 ++ emit vv.1 v) else st) (false, [])
       if rolling then roll fuel (j + 1) sequence (acc ++ out) else acc
   let rec go (fuel : Nat) (rest : List XmlVar) (acc : List (XmlVar × Val)) :
       Except Err (List (XmlVar × Val)) :=
@@ -200,7 +201,9 @@ def genObj (e : BEnv) (Γ : Ctx) (cfg : SerCfg) : Nat → Val → Option Str →
         | some q => if q.isEmpty then m.qname else q
         | none => m.qname
       let nillable := nillable || m.nillable
-      let ns := targetUri qname
+      -- the classes of the child values inherit the namespace of this class (`meta.namespace`),
+      -- like `ElementNode.build_node`, not the one of the element name
+      let ns := m.namespace
       let attrs ← nextAttribute cfg m fields nillable xsiTypeV
       let vals ← nextValue m fields
       let body ← vals.mapM (fun (var, value) => do
@@ -230,7 +233,8 @@ def genValue (e : BEnv) (Γ : Ctx) (cfg : SerCfg) : Nat → Val → XmlVar → O
       return [Ev.data d]
     else if var.tokens then
       -- convert_tokens
-      if v.truthy || var.nillable then
+      -- an empty list of token lists has no element to be nil
+      if v.truthy || (var.nillable && !var.listElement) then
         match v with
         | .list (.list x :: rest) => do
           let parts ← (.list x :: rest).mapM (fun val => convertElement var.toVarCore val)
@@ -313,13 +317,15 @@ def genXsiElement (e : BEnv) (Γ : Ctx) (cfg : SerCfg) : Nat → Val → ClassId
         match var.clazz with
         | some c =>
           if Γ.isDerived cls c then do
+            -- the parser builds the declared class unless told otherwise: no `real_xsi_type` shortcut
             let m ← Γ.fetch cls ns none
-            pure (realXsiType var.qname m.targetQName)
+            pure m.targetQName
           else throw (.serializer "not derived")
         | none => do
           let m ← Γ.fetch cls ns none
           pure (realXsiType var.qname m.targetQName)
-    genObj e Γ cfg fuel v ns (some var.qname) var.nillable xt
+    -- the object is not `None`: the field being nillable is no reason for `xsi:nil`
+    genObj e Γ cfg fuel v ns (some var.qname) false xt
 
 /-- `convert_choice` -/
 def genChoice (e : BEnv) (Γ : Ctx) (cfg : SerCfg) : Nat → Val → XmlVar → Option Str → Except Err (List Ev)
